@@ -51,7 +51,7 @@ import time
 import traceback
 
 REPLY_TIMEOUT = 300.0      # harness guard only (seconds without an answer from a granted worker)
-BLOCKED_GRACE = 20.0       # harness guard only: a worker that reported 'blocked' while another is paused and then does
+BLOCKED_GRACE = 10.0       # harness guard only: a worker that reported 'blocked' while another is paused and then does
                            # not end its step (it spins on the lock) is killed; the schedule is infeasible either way
 MAX_POINTS = 32            # horizon: steps of one worker in one schedule
 MAX_SCHEDULES = 20000      # horizon: schedule runs of one exploration
@@ -212,19 +212,25 @@ def zygote_main(argv):
 # controller side
 # =====================================================================================================
 _LIVE_PIDS = set()
+_LIVE_ROOTS = set()
 _LIVE_LOCK = threading.Lock()
 
 
 def kill_all_workers():
-    """Last-resort cleanup (atexit): kill by PID every process this module started and has not seen exit."""
+    """Last-resort cleanup (atexit): kill by PID every process this module started and has not seen exit, and
+    remove the scratch directories of pools that were not closed."""
     with _LIVE_LOCK:
         pids = list(_LIVE_PIDS)
         _LIVE_PIDS.clear()
+        roots = list(_LIVE_ROOTS)
+        _LIVE_ROOTS.clear()
     for pid in pids:
         try:
             os.kill(pid, signal.SIGKILL)
         except OSError:
             pass
+    for r in roots:
+        shutil.rmtree(r, ignore_errors=True)
 
 
 atexit.register(kill_all_workers)
@@ -377,7 +383,7 @@ class Group:
         for i in idx:
             self.workers[i].send({"cmd": "reset"})
         for i in idx:
-            ev = self.workers[i].recv()
+            ev = self._await(i, False)
             if ev.get("ev") != "reset":
                 raise SchedError("reset answered %r" % (ev,))
 
@@ -475,6 +481,8 @@ class Pool:
     def __init__(self, ngroups, size, repo, task_name):
         self.repo = repo
         self.root = tempfile.mkdtemp(prefix="verif_sched_")
+        with _LIVE_LOCK:
+            _LIVE_ROOTS.add(self.root)
         self.groups = []
         self.zygote = None
         self.lock = threading.Lock()
@@ -561,6 +569,8 @@ class Pool:
         except Exception:
             pass
         shutil.rmtree(self.root, ignore_errors=True)
+        with _LIVE_LOCK:
+            _LIVE_ROOTS.discard(self.root)
 
     def map_dynamic(self, roots, handle):
         """Process a growing work list: handle(group, item) -> iterable of new items.  LIFO; returns when empty.
